@@ -4487,7 +4487,9 @@ skip_num_policy_pcr_group:
         rc = PERSISTENT_DATA_AuditCommands_Unmarshal(data, buffer, size, hdr.version);
     }
     if (rc == TPM_RC_SUCCESS) {
-        rc = TPM_ALG_ID_Unmarshal(&data->auditHashAlg, buffer, size);
+        /* must be an implemented hash algorithm: it is used for every
+         * audited command without further checks */
+        rc = TPMI_ALG_HASH_Unmarshal(&data->auditHashAlg, buffer, size, FALSE);
     }
     if (rc == TPM_RC_SUCCESS) {
         rc = UINT64_Unmarshal(&data->auditCounter, buffer, size);
